@@ -94,7 +94,7 @@ pub fn strategy() -> BoxedStrategy<Case> {
             }
             if seed % 300 == 7 {
                 // a real-size frame now and then (pointwise relation on corner / boundary / sampled positions)
-                let (lw, lh) = crate::gen::LARGE_SIZES[(seed / 300) as usize % crate::gen::LARGE_SIZES.len()];
+                let (lw, lh) = crate::gen::LARGE_SIZES[(seed / 300) as usize % 5];
                 w = lw;
                 h = lh;
             }
